@@ -29,6 +29,7 @@ from __future__ import annotations
 import copy
 import itertools
 import math
+import os
 import random
 import re
 import traceback
@@ -2191,6 +2192,24 @@ def guarded(ctx: Ctx, name, fn):
 
 
 def run(ctx: Ctx):
+    """the streams (`_run`); a rehearsal on a scratch copy (PYPOSE_REPO set to something else than /repo) puts the tracked
+    generated tables back afterwards — the obligations over the regenerated tables have been re-checked by stream `static` by
+    then, and the next run on the real tree must not start from the tables of a mutated one"""
+    gen_dir = extract.GEN_GLOBALS.parent
+    before = {f: f.read_bytes() for f in sorted(gen_dir.glob("*.lean"))}
+    try:
+        _run(ctx)
+    finally:
+        if os.environ.get("PYPOSE_REPO", "/repo").rstrip("/") != "/repo":
+            back = [f.name for f, b in before.items() if f.read_bytes() != b]
+            for f, b in before.items():
+                if f.read_bytes() != b:
+                    f.write_bytes(b)
+            if back:
+                ctx.notes.append(f"scratch rehearsal: generated tables {back} put back to their content at the start of the run")
+
+
+def _run(ctx: Ctx):
     torch.set_grad_enabled(True)
     # one intra-op thread: every tensor here is tiny or elementwise; on the shared box the OpenMP pool of 4 threads made
     # a 65537-item Sim3.Log take 30 s (0.07 s single-threaded) when the machine was oversubscribed
@@ -2258,7 +2277,8 @@ def search(ctx: Ctx):
                    lambda: stream_persistent(ctx), lambda: stream_alias(ctx), lambda: stream_reuse(ctx)) + tuple(
                 (lambda f: lambda: f(ctx))(getattr(__import__("harness.util_c06b", fromlist=["x"]), "stream_" + n2)) for n2 in PASS2) + tuple(
                 (lambda f: lambda: f(ctx))(getattr(__import__("harness.util_c06c", fromlist=["x"]), "stream_" + n3)) for n3 in PASS3 if n3 != "static") + tuple(
-                (lambda f: lambda: f(ctx))(getattr(__import__("harness.util_c06d", fromlist=["x"]), "stream_" + n4)) for n4 in PASS4):
+                (lambda f: lambda: f(ctx))(getattr(__import__("harness.util_c06d", fromlist=["x"]), "stream_" + n4)) for n4 in PASS4) + tuple(
+                (lambda f: lambda: f(ctx))(getattr(__import__("harness.util_c06e", fromlist=["x"]), "stream_" + n5)) for n5 in PASS5):
             st()
             if ctx.failures:
                 return
